@@ -74,9 +74,10 @@ type vfOffer struct {
 }
 
 type vfConnProvider struct {
-	lifetime context.Context
-	offers   chan vfOffer
-	waiting  bool
+	lifetime  context.Context
+	offers    chan vfOffer
+	waiting   bool
+	afterConn func() // micro level: a scheduling point between obtaining the connection and returning it
 }
 
 func (p *vfConnProvider) NewConnection() (net.Conn, error) {
@@ -84,6 +85,10 @@ func (p *vfConnProvider) NewConnection() (net.Conn, error) {
 	defer func() { p.waiting = false }()
 	select {
 	case o := <-p.offers:
+		if p.afterConn != nil {
+			p.waiting = false
+			p.afterConn()
+		}
 		return o.conn, o.err
 	case <-p.lifetime.Done():
 		return nil, p.lifetime.Err()
@@ -103,9 +108,9 @@ type vfFakeNet struct {
 	dials      int
 	lnClosed   chan struct{}
 	listening  bool
-	// afterAccept runs in the accepting goroutine between the listener handing over a connection and Accept
-	// returning (micro level: a scheduling point)
-	afterAccept func()
+	// afterConn runs in the dialling / accepting goroutine between the network handing over a connection and
+	// Dial / Accept returning (micro level: a scheduling point)
+	afterConn func()
 }
 
 func vfNewFakeNet() *vfFakeNet {
@@ -119,6 +124,10 @@ func (n *vfFakeNet) dial(network, addr string, timeout time.Duration) (net.Conn,
 	select {
 	case o := <-n.offers:
 		n.lastFailed = o.err != nil
+		if n.afterConn != nil {
+			n.waiting = false
+			n.afterConn()
+		}
 		return o.conn, o.err
 	case <-time.After(timeout):
 		n.lastFailed = true
@@ -138,9 +147,9 @@ func (l *vfFakeListener) Accept() (net.Conn, error) {
 	defer func() { l.n.waiting = false }()
 	select {
 	case o := <-l.n.offers:
-		if l.n.afterAccept != nil {
+		if l.n.afterConn != nil {
 			l.n.waiting = false
-			l.n.afterAccept()
+			l.n.afterConn()
 		}
 		return o.conn, o.err
 	case <-l.n.lnClosed:
